@@ -19,7 +19,9 @@ VARIABLES mode,      \* contract: the error mode the user has set
 vars == <<mode, amode, parser, pref, hist>>
 
 Entries == {"string", "bytes", "style", "file", "url", "module"}
-Faults  == {"none", "empty", "malformed", "undecodable", "fetcherthrows", "missingfile"}
+\* "pushback": well-formed input whose LAST construct makes the production parser push a token back that nobody consumes
+\* (an empty margin box) - scratch state that the next use of the library must not see
+Faults  == {"none", "empty", "malformed", "undecodable", "fetcherthrows", "missingfile", "pushback"}
 \* does the call raise out of the parse method?  (malformed input raises only from a raising parser)
 Raises(p, f) == f \in {"undecodable", "fetcherthrows", "missingfile"} \/ (f = "malformed" /\ parser[p].raising)
 \* is the mode already switched when the fault happens?  (a missing file / failing URL fetch is noticed before)
@@ -27,6 +29,7 @@ Switched(e, f) == ~(f = "missingfile") /\ ~(e = "url" /\ f = "fetcherthrows")
 Sensible(e, f) == /\ (f = "missingfile" => e = "file")
                   /\ (f = "undecodable" => e \in {"bytes", "style", "file", "module"})
                   /\ (f = "fetcherthrows" => e \in {"string", "url"})
+                  /\ (f = "pushback" => e \in {"string", "bytes", "file", "module"})
 
 Rec(a) == /\ Len(hist) < MaxHist
           /\ hist' = Append(hist, a)
@@ -55,6 +58,8 @@ Serialize == Rec([op |-> "serialize"]) /\ UNCHANGED <<mode, amode, parser, pref>
 \* a rejected edit of a value object; a profile with its own token macros registered and removed again: both leave nothing behind
 ValueEdit == Rec([op |-> "valueedit"]) /\ UNCHANGED <<mode, amode, parser, pref>>
 ProfileRoundTrip == Rec([op |-> "profileaddremove"]) /\ UNCHANGED <<mode, amode, parser, pref>>
+\* the default profiles are switched to CSS 2.1, the battery's declarations are validated, the default is switched back
+ProfileSwitch == Rec([op |-> "profileswitch"]) /\ UNCHANGED <<mode, amode, parser, pref>>
 \* csscombine works with a private serializer: whatever its arguments, the user's serializer and preferences stay as they are
 Combine(f, m, rv) == Rec([op |-> "combine", fault |-> f, minify |-> m, resolve |-> rv]) /\ UNCHANGED <<mode, amode, parser, pref>>
 \* a tokenizer built with its own macros (a compiled-production cache sits behind it): later tokenizers must not see it
@@ -68,7 +73,7 @@ Next == \/ \E p \in Parsers, r \in BOOLEAN : NewParser(p, r)
         \/ \E b \in BOOLEAN : SetMode(b)
         \/ \E p \in Parsers, e \in Entries \ {"module"}, f \in Faults : Parse(p, e, f)
         \/ \E f \in Faults : ParseModule(f)
-        \/ DomEdit \/ MQEdit \/ Serialize \/ Probe \/ ValueEdit \/ ProfileRoundTrip
+        \/ DomEdit \/ MQEdit \/ Serialize \/ Probe \/ ValueEdit \/ ProfileRoundTrip \/ ProfileSwitch
         \/ \E f \in {"none", "missingfile"}, m \in BOOLEAN, rv \in BOOLEAN : Combine(f, m, rv)
         \/ \E v \in {"A", "B"} : CustomTokenizer(v)
         \/ \E v \in {"default", "minified", "nocomments"} : SetPref(v)
